@@ -1084,6 +1084,10 @@ def store(I, arr, idx, v, node, env):
             else:
                 level = ("elem", it)
             axis += 1
+        elif isinstance(it, Arr) and it.dtype == "bool" and it.ndim == 1 and level_axis(arr) == axis and isinstance(it.val, Pred) and it.val.op == "==" and _level_mask_of(I, it.val) is not None:
+            # x[levels == i, ...] = state: every output slot whose requested level is node i receives the state of node i
+            level = ("levelmask", _level_mask_of(I, it.val))
+            axis += 1
         elif isinstance(it, Arr) and it.dtype == "bool":
             mv = it.val
             sub = arr.shape[axis: axis + it.ndim]
@@ -1147,6 +1151,29 @@ def store(I, arr, idx, v, node, env):
                 g0 = gen(alg.fn("idx", arr.shape[0], integer=True))
                 new.val = g0 if isinstance(g0, Expr) else Unknown("table of %r" % (v,))
                 return new
+    if level[0] == "levelmask":
+        lvals, node_expr, in_loop = level[1]
+        pt = "mean" if is_mean_point else "generic"
+        if in_loop:
+            L = I.loop_stack[-1]
+            if applies and sv is not BOT:
+                pend = list(new.meta.get("pending_level", []))
+                pend.append((L.id, pt, sv, lvals))
+                new.meta["pending_level"] = pend
+                ls = LevelStore(new.name, lvals, pt, sv, I_.Member(node_expr, id(lvals), "levels", True), "%s:%s" % (I.cur_mod.name, node.lineno), True)
+                ls.masked = True  # slots are addressed by the requested level itself, not by a running counter
+                L.level_stores.append(ls)
+            return new
+        # after the sweep: the slots that ask for this node receive the final state - which is what the formula of the sweep
+        # gives for that node already when the value stored is the carried state itself
+        if not applies or sv is BOT:
+            return new
+        if new.meta.get("level_written") and isinstance(new.val, Expr) and isinstance(sv, Expr):
+            la = _single_atom(lvals)
+            if la is not None and new.val.subs({la: node_expr}).eq(sv):
+                return new
+        new.val = Unknown("%s after a masked level store that the sweep's own formula does not reproduce" % (new.name or "array"))
+        return new
     if level[0] == "slot":
         return _level_store(I, new, level[1], is_mean_point, sv, node, applies, env)
     if not applies or sv is BOT:
@@ -1218,6 +1245,30 @@ def _check_assignable(I, region, vshape, node):
         if not (dim_eq(x, y) or dim_is_one(y) or _placeholder_dim(x) or _placeholder_dim(y)):
             I.event("shape", node, "cannot assign value of shape %r to region of shape %r" % (vshape, region))
             return
+
+
+def _level_mask_of(I, pred):
+    """`levels == node` as a mask over the level axis: (generic entry of the level list, node expression, inside a sweep?)
+    when the predicate compares the entries of a 1-D array with a quantity that does not depend on the position"""
+    e = pred.e.expand()
+    elems = [a for a in e.top_atoms() if a.kind == "fn" and a.name == "elem"]
+    if len(elems) != 1:
+        return None
+    c = e.coeff_of(elems[0], 1)
+    if not (c.eq(ONE) or c.eq(-ONE)):
+        return None
+    lv = alg.atom_expr(elems[0])
+    node_expr = (lv - e).expand() if c.eq(ONE) else (lv + e).expand()
+    if elems[0] in node_expr.atoms():
+        return None
+    in_loop = False
+    if I.loop_stack:
+        L = I.loop_stack[-1]
+        i_expr = L.rng.start + alg.atom_expr(L.ivar) * L.rng.step
+        if not node_expr.eq(i_expr):
+            return None
+        in_loop = True
+    return lv, node_expr, in_loop
 
 
 def _level_store(I, new, slot, is_mean_point, sv, node, applies, env):
